@@ -1,4 +1,4 @@
-\* AppCfg.tla, repaired behaviour (no defect modelled): all clauses of C13 must hold
+\* AppCfg.tla, repaired behaviour (no defect modelled = appcfgmgr.py with proposed_fixes/C13-1..3): every clause of C13 must hold
 SPECIFICATION Spec
 CONSTANTS
   Instances = {"a1", "a2"}
